@@ -1,10 +1,12 @@
 use crate::ctx::Ctx;
 
 pub mod c14;
+pub mod c17;
 
 pub fn run(prop: &str, ctx: &mut Ctx) -> bool {
     match prop {
         "C14" => c14::run(ctx),
+        "C17" => c17::run(ctx),
         _ => return false,
     }
     true
